@@ -54,14 +54,14 @@ FUNCTIONS = [
     "fdtdx.objects.device.parameters.discrete.ConnectHolesAndStructures.__call__ (bounded only)",
 ]
 INLINED = ["fdtdx.core.jax.ste.straight_through_estimator", "fdtdx.core.misc.get_background_material_name", "fdtdx.materials.compute_ordered_names"]
-STUBS = ["jax.lax.fori_loop inside compute_polymer_connection / compute_air_connection: replaced by the loop contract above (its obligations are proved on the real loop body in the same task)"]
+STUBS = ["jax.lax.fori_loop inside compute_polymer_connection / compute_air_connection: replaced by the loop contract above (its obligations are proved on the real loop body in the same task); a run-to-fixpoint jax.lax.while_loop(cond, step, (state, flag)) whose step is one dilation pass is handled by the same contract, its exit flag treated as an arbitrary boolean"]
 ASSUMPTIONS = [
     "every grid dimension >= 3 in the deductive part (jax.scipy.signal.convolve2d swaps its operands or raises for an image smaller than the 3x3 kernel); Nz == 1 designs only in the bounded part",
     "jax.scipy.signal.convolve2d(mode='same', boundary='fill') = textbook zero-filled convolution (vc/signal.py, cross-checked against real JAX on concrete data inside this check)",
     "'connected' = reachable from a bottom-layer (z index 0) material cell through face-adjacent material cells; background 'enclosed' = not reachable from the top layer or the four side faces through face-adjacent background cells",
     "the completeness direction (every reachable cell is kept), single-layer designs and connect_holes_and_structures are NOT proved: bounded stand-in on the designs listed in LEVEL_NOTE",
 ]
-MIN_OBLIGATIONS = {"quick": 60, "thorough": 60}
+MIN_OBLIGATIONS = {"quick": 600, "thorough": 600}
 LEVEL_TEXT = "Deductive proof, for all grid shapes >= 3^3 and all binary designs, that one real dilation pass preserves 'subset of every mask-closed set containing the seeds', stays in the mask, is extensive/monotone and adds every face neighbour; composed through the real compute_polymer_connection, compute_air_connection, remove_floating_polymer and RemoveFloatingMaterial.__call__ this gives: only connected material is kept, nothing is added"
 LEVEL_NOTE = "completeness (fixpoint reached in max(shape) passes), Nz == 1 and connect_holes_and_structures are bounded only: all y-constant designs on 3x3x3 and 4x3x4, seeded random designs on shapes up to 8x8x4 (thorough 10x10x6), serpentine/spiral/snake templates up to 9 cells per axis (thorough 15), real code under real JAX against scipy.ndimage.label"
 BOUNDED_RULE = "real remove_floating_polymer / RemoveFloatingMaterial / connect_holes_and_structures / ConnectHolesAndStructures under real JAX on enumerated, seeded-random and adversarial designs; oracle = scipy.ndimage.label with face connectivity"
@@ -189,19 +189,50 @@ def _shape(inp, nz1=False):
 
 
 class _patched_loop:
+    """installs the loop contract for `jax.lax.fori_loop(lo, hi, body, seeds)` and, should the flood fill be
+    rewritten as a run-to-fixpoint loop, for `jax.lax.while_loop(cond, step, (seeds, flag))` whose step
+    performs one dilation pass on element 0 of the carry.  The exit flag (`jnp.any(new != old)`, a
+    reduction over symbolic axes) is treated as an arbitrary boolean: only what holds after >= 1 passes
+    for ANY number of passes is used."""
+
     def __init__(self, stub):
         self.stub = stub
 
     def __enter__(self):
         import importlib
 
+        from vc.core import Unsupported
+        from vc.obl import sym_bool
+
         bt = importlib.import_module(BT_MOD)
         self.lax = bt.jax.lax
-        self.saved = self.lax.fori_loop
-        self.lax.fori_loop = self.stub
+        self.jnp = bt.jnp
+        self.saved = (self.lax.fori_loop, self.lax.while_loop, self.jnp.any)
+        stub = self.stub
+        orig_any = self.jnp.any
+
+        def any_(a, *args, **kw):
+            try:
+                return orig_any(a, *args, **kw)
+            except Unsupported:
+                return A.asarray(sym_bool("any_over_symbolic_axes"))
+
+        def while_stub(cond_fun, body_fun, init_val, **kw):
+            if not isinstance(init_val, (tuple, list)) or len(init_val) < 1 or A.asarray(init_val[0]).ndim != 3:
+                raise Unsupported("while_loop carry is not (state, ...) with a 3-d state")
+            first = cond_fun(init_val)
+            first = first.item() if isinstance(first, SymArray) else first
+            ctx().prove("loop:while_condition_true_on_entry", bool(first) if not isinstance(first, SymBool) else first)
+            rest = tuple(init_val[1:])
+            res = stub(0, 1, lambda i, arr: body_fun((arr, *rest))[0], init_val[0])
+            return (res, *[A.asarray(False) for _ in rest])
+
+        self.lax.fori_loop = stub
+        self.lax.while_loop = while_stub
+        self.jnp.any = any_
 
     def __exit__(self, *a):
-        self.lax.fori_loop = self.saved
+        self.lax.fori_loop, self.lax.while_loop, self.jnp.any = self.saved
 
 
 def _polymer_spec(M, R, shape, padded):
